@@ -127,10 +127,32 @@ func CLIFsize(n int, stdin string, limit time.Duration, args ...string) CLIResul
 	return r
 }
 
+// CLIFsizeToFile is CLIFsize with the binary's stdout redirected to a regular file (so that the size
+// limit applies to what it prints); the file content is returned in Stdout.
+func CLIFsizeToFile(n int, stdin string, limit time.Duration, stdoutPath string, args ...string) CLIResult {
+	os.Setenv("VERIF_FSIZE_STDOUT", stdoutPath)
+	defer os.Unsetenv("VERIF_FSIZE_STDOUT")
+	r := CLIFsize(n, stdin, limit, args...)
+	b, _ := os.ReadFile(stdoutPath)
+	r.Stdout = string(b)
+	return r
+}
+
 // FsizeExec is the launcher behind CLIFsize: set RLIMIT_FSIZE and exec the target.
 func FsizeExec(args []string) {
 	var n uint64
 	fmt.Sscan(args[0], &n)
+	if p := os.Getenv("VERIF_FSIZE_STDOUT"); p != "" {
+		f, err := os.OpenFile(p, os.O_CREATE|os.O_WRONLY|os.O_TRUNC, 0644)
+		if err != nil {
+			fmt.Fprintln(os.Stderr, "open stdout file:", err)
+			os.Exit(96)
+		}
+		if err := syscall.Dup2(int(f.Fd()), 1); err != nil {
+			fmt.Fprintln(os.Stderr, "dup2:", err)
+			os.Exit(96)
+		}
+	}
 	lim := syscall.Rlimit{Cur: n, Max: n}
 	if err := syscall.Setrlimit(syscall.RLIMIT_FSIZE, &lim); err != nil {
 		fmt.Fprintln(os.Stderr, "setrlimit:", err)
